@@ -13,6 +13,7 @@ no internal_error, registered code, line inside the file, column inside the
 line, non-empty message.
 """
 import ast
+import itertools
 import contextlib
 import io
 import json
@@ -68,8 +69,18 @@ def judge(src, result, settings):
         col = f.get("col_offset")
 
         def bad(what):
-            problems.append({"what": what, "code": cname, "lineno": lineno, "col": col,
-                             "text": re.sub(r"0x[0-9a-f]+", "0x?", desc)[-600:]})
+            pb = {"what": what, "code": cname, "lineno": lineno, "col": col,
+                  "text": re.sub(r"0x[0-9a-f]+", "0x?", desc)[-600:]}
+            if what == "column-outside-line":
+                ln = lines[lineno - 1]
+                raw = ln.encode("utf-8")
+                pb["line_nonascii"] = any(ord(ch) > 127 for ch in ln)
+                try:
+                    raw[:col].decode("utf-8")
+                    pb["col_is_byte_offset"] = col <= len(raw)
+                except UnicodeDecodeError:
+                    pb["col_is_byte_offset"] = False
+            problems.append(pb)
 
         if cname == "internal_error":
             bad("internal_error")
@@ -148,6 +159,14 @@ def value_universe(rng):
         DictIncompleteValue(dict, [KVPair(KnownValue("k"), TypedValue(int)), KVPair(TypedValue(str), TypedValue(str), is_many=True)]),
         DictIncompleteValue(dict, []),
         SequenceValue(tuple, []), SequenceValue(list, [(True, TypedValue(int))]),
+        # large literal unions (>= 10 members switch MultiValuedValue to its hashed fast path)
+        MultiValuedValue([KnownValue(i) for i in range(12)]),
+        MultiValuedValue([KnownValue(c) for c in "abcdefghijkl"]),
+        MultiValuedValue([KnownValue(x) for x in (None, 0, 1, "a", "b", b"x", 2.5, True, False, (), (1,), "zz", 7)]),
+        MultiValuedValue([KnownValue(i) for i in range(10)] + [TypedValue(str)]),
+        MultiValuedValue([KnownValue(i) for i in range(11)] + [KnownValue([1])]),
+        # unhashable literals
+        KnownValue([]), KnownValue({}), KnownValue(set()), KnownValue([[1], {2: 3}]), KnownValue(bytearray(b"x")), KnownValue(({}, [])),
     ]
 
     def gen(depth):
@@ -174,12 +193,13 @@ def value_universe(rng):
             [SigParameter(f"p{i}", kind, annotation=gen(depth - 1)) for i in range(rng.randrange(0, 3))],
             gen(depth - 1)))
 
+    gen.atoms = atoms
     tvmaps = [{}, {T: TypedValue(int)}, {T: KnownValue(1), U: TypedValue(bool)}, {T: MultiValuedValue([]), W: TypedValue(str)},
               {P: AnyValue(AnySource.explicit)}, {T: TypeVarValue(U)}]
     return gen, tvmaps
 
 
-def value_stream(seed, npairs):
+def value_stream(seed, npairs, matrix_too=True):
     from pyanalyze.checker import Checker
     from pyanalyze.value import CanAssignError, Value, unite_values
 
@@ -202,8 +222,10 @@ def value_stream(seed, npairs):
                                  "values": [re.sub(r"0x[0-9a-f]+", "0x?", repr(v))[:400] for v in vals]})
             return None
 
-    for _ in range(npairs):
-        a, b = gen(3), gen(3)
+    atoms = gen.atoms
+    matrix = [(a, b) for a in atoms for b in atoms] if matrix_too else []
+    pairs = itertools.chain(matrix, ((gen(3), gen(3)) for _ in range(npairs)))
+    for a, b in pairs:
         kinds[type(a).__name__] = kinds.get(type(a).__name__, 0) + 1
         r = attempt("can_assign", lambda: a.can_assign(b, ctx), a, b)
         if r is not None:
@@ -287,6 +309,30 @@ def emit_cases(cases):
 
 
 # ---------------------------------------------------------------------------
+# column correspondence: what col_offset does the real parser + show_error report for a
+# name that follows a given string of characters?
+
+
+def column_cases(cases):
+    from pyanalyze.error_code import ErrorCode
+    from pyanalyze.test_name_check_visitor import ConfiguredNameCheckVisitor
+
+    out = []
+    kwargs = ConfiguredNameCheckVisitor.prepare_constructor_kwargs({})
+    for text in cases:
+        src = "(" + repr(text)[1:-1].join("''") + ", zz_name)\n" if False else "('" + text + "', zz_name)\n"
+        tree = ast.parse(src)
+        name = [n for n in ast.walk(tree) if isinstance(n, ast.Name)][0]
+        try:
+            v = ConfiguredNameCheckVisitor("<col>", src, tree, module=ast, **kwargs)
+            f = v.show_error(name, "message", ErrorCode.bad_star_import)
+            out.append((f or {}).get("col_offset"))
+        except Exception as ex:  # noqa
+            out.append({"other": f"{type(ex).__name__}: {ex}"[:200]})
+    return out
+
+
+# ---------------------------------------------------------------------------
 # dispatch correspondence
 
 
@@ -366,8 +412,9 @@ def main():
 
     doc["section_errors"] = []
     for key, cond, fn in (
-        ("values", req.get("value_pairs"), lambda: value_stream(req.get("value_seed", 0), req["value_pairs"])),
+        ("values", req.get("value_pairs"), lambda: value_stream(req.get("value_seed", 0), req["value_pairs"], bool(req.get("value_matrix")))),
         ("emit", req.get("emit_cases"), lambda: emit_cases(req["emit_cases"])),
+        ("columns", req.get("column_cases"), lambda: column_cases(req["column_cases"])),
         ("dispatch", req.get("dispatch"), dispatch_cases),
     ):
         if not cond:
